@@ -43,3 +43,8 @@ CLAIMS["C05"] = (
     "Generated particle tables and histories of up to 6 pose operations; after every step complete positions and orientation matrices are compared with an explicit model (p*f, p+Rs, RQ, z-mirror), non-pose fields and row order must be untouched, update_coordinates must leave integral x,y,z and |shift|<=0.5, double flip must restore all fields. Held on everything explored.",
     "Trusts the harness rotation algebra (explicit matrices); orientation tolerance 1e-6, position tolerance 1e-9 relative plus shift-propagated slack.",
 )
+CLAIMS["C08"] = (
+    "model-based (stateful) property test: generated operation histories over a pool of particle lists, interpreted against the real Motl objects and a pure-Python row-list model, compared after every step",
+    "Generated pools of tables (repeats, NaN holes, duplicate and near-equal ids, non-default row labels) and histories of up to 10 set/renumbering operations; after every step the 20-column invariant and row-by-row equality with the model (or admissibility where the statement leaves a choice) are checked, and inputs of non-mutating operations must be unchanged. Held on everything explored.",
+    "Trusts the pure-Python model of the nine operations as written from the property text; NaN identified with 0.",
+)
